@@ -159,6 +159,20 @@ impl Monitor for C14 {
                 return out;
             }
         }
+        // an oracle is born without a past: no reference, no accumulator, no timestamps - whatever trade-enable time it is given
+        if ev.tx.ixs.len() == 1 {
+            for m in ev.tx.ixs[0].accounts.iter() {
+                if ev.pre.get(&m.pubkey).map(|a| a.owner != crate::ix::wp()).unwrap_or(true) {
+                    if let Some(o) = ev.post.get(&m.pubkey).filter(|a| a.owner == crate::ix::wp()).and_then(|a| decode::oracle(&a.data)) {
+                        cov.probe("oracle_created");
+                        if o.v != AfVariables::default() {
+                            out.push(viol("fresh_oracle_has_a_past", ev.idx, format!("after {} the new oracle {} (trade-enable time {}) already carries variables {:?}", ev.tag, m.pubkey, o.trade_enable_timestamp, o.v)));
+                            return out;
+                        }
+                    }
+                }
+            }
+        }
         // state invariant after every transaction: the stored accumulator never exceeds the configured maximum
         for m in ev.tx.ixs.iter().flat_map(|i| i.accounts.iter()) {
             if let (Some(pre_o), Some(post_o)) = (ev.pre.get(&m.pubkey).filter(|a| a.owner == crate::ix::wp()).and_then(|a| decode::oracle(&a.data)), ev.post.get(&m.pubkey).filter(|a| a.owner == crate::ix::wp()).and_then(|a| decode::oracle(&a.data))) {
